@@ -25,7 +25,12 @@ def build(shape, carrier='PartialEq', with_eq=False, name='Ty', lawful=False):
         for i, c in enumerate(fl):
             if lawful and c == 'm':
                 c = 'h'
+            both = c == 'x'      # `ignore` and `method` on one field: ignored (the method must never be consulted)
+            if both:
+                c = 'i'
             ty, p = FIELD[c]
+            if both:
+                p = dict(p, method='eq_le')
             a = {}
             if p is not None:
                 a[carrier] = dict(p)
@@ -190,6 +195,9 @@ def gen(tier, seed, sp_factory=None):
     # gated on "no custom method" is still exercised
     for sh in IRREFLEXIVE_SHAPES:
         mods.append(emit(build(sh, 'PartialEq', False), f'm{len(mods):04d}', f'{S.shape_id(sh)}/carrier=PartialEq/irreflexive field', irreflexive=True))
+    for k, sh in enumerate(BOTH_SHAPES):
+        car = ['PartialEq', 'Eq', 'PartialEq'][k]
+        mods.append(emit(build(sh, car, car == 'Eq'), f'm{len(mods):04d}', f'{S.shape_id(sh)}/carrier={car}/ignore+method on one field'))
     mods += special_modules(len(mods))
     from .runner import empty_enum_module
     for el, b in [('PartialEq', 'PartialEq'), ('PartialEq, Eq', 'PartialEq + Eq')]:
@@ -197,6 +205,11 @@ def gen(tier, seed, sp_factory=None):
     return mods
 
 
+BOTH_SHAPES = [
+    ('struct', [('named', ['p', 'x', 'p'])]),
+    ('struct', [('tuple', ['x', 'q'])]),
+    ('enum', [('tuple', ['x', 'p']), ('named', ['m', 'x']), ('unit', [])]),
+]
 IRREFLEXIVE_SHAPES = [
     ('struct', [('named', ['n', 'p'])]),
     ('struct', [('tuple', ['i', 'n'])]),
